@@ -115,7 +115,7 @@ def replay_and_force(chk, out, cfg_name, reps, stride, stats):
     stats["cases"] += len(cases)
     stats["nontrivial_cases"] += sum(1 for c in cases if shares_cell(c))
     if cfg_name == "chain":
-        reps = max(reps, 60)      # few cases; the window of two cell locks held at once is narrow
+        reps = max(reps, 4000)    # few cases; the window of two cell locks held at once is narrow
     r = vh_json(["replay", path, reps])
     stats["replay_runs"] += r["runs"]
     stats["outcomes_observed"] += r["outcomes_observed"]
